@@ -306,7 +306,7 @@ func nilErrGuards(fn *ssa.Function, c *ssa.Call) []engine.Guard {
 			return false, false, ""
 		}
 		x = engine.Unwrap(x)
-		if errs[x] {
+		if errs[x] || errs[engine.CellValue(x)] {
 			return true, !nonNilOnTrue, "err == nil"
 		}
 		// phi / cell carrying exactly this error
@@ -335,7 +335,16 @@ func nilErrGuards(fn *ssa.Function, c *ssa.Call) []engine.Guard {
 		if !isErrorType(last.Type()) {
 			continue
 		}
-		if errs[engine.Unwrap(last)] {
+		direct := errs[engine.Unwrap(last)]
+		if u, isU := engine.Unwrap(last).(*ssa.UnOp); isU && u.Op == token.MUL && !direct {
+			// named result: `*err = f(x); rundefers; t = *err; return t` in one block
+			for _, in := range ret.Block().Instrs {
+				if st, ok := in.(*ssa.Store); ok && st.Addr == u.X {
+					direct = errs[engine.Unwrap(st.Val)]
+				}
+			}
+		}
+		if direct {
 			gs = append(gs, engine.Guard{TailRet: ret, Note: "returns the call's error"})
 		}
 	}
@@ -363,7 +372,7 @@ func retErrKind(ret *ssa.Return) string {
 				}
 			}
 			if lastStore != nil {
-				last = lastStore.Val
+				last = engine.CellValue(lastStore.Val)
 			} else {
 				return "maybe"
 			}
@@ -375,7 +384,7 @@ func retErrKind(ret *ssa.Return) string {
 		fn := ret.Parent()
 		g := guardsWhere(fn, func(cond ssa.Value) (bool, bool, string) {
 			x, nonNilOnTrue, ok := engine.NilCheck(cond)
-			if ok && engine.Unwrap(x) == engine.Unwrap(last) {
+			if ok && (engine.Unwrap(x) == engine.Unwrap(last) || engine.CellValue(x) == engine.CellValue(last)) {
 				return true, nonNilOnTrue, ""
 			}
 			return false, false, ""
